@@ -93,6 +93,11 @@ func (d *drv) makeBlock(on *block.Block, n int) *block.Block {
 	w := d.w
 	w.BeginBlock(on)
 	d.someTxns(n)
+	for i := 0; w.CurState.GetChangeCount() == 0 && i < 5; i++ {
+		// every transaction was rejected: a block without changes publishes no change set
+		// (NewBlockStateChange refuses it); add a plain send that applies
+		w.DoRec(d.rc, world.TxnSpec{From: w.Clients[0], To: w.Clients[1].ID, Type: transaction.TxnTypeSend, Value: 1}, rec.M{"src": "statesync"})
+	}
 	b := w.EndBlock()
 	b.SetStateChangesCount(b.ClientState) // as the generator does (miner/protocol_block.go)
 	return b
